@@ -225,7 +225,13 @@ def c17(ck):
             ck.failures.append({"what": "a valid %s object is rejected" % kind[3:], "object": info["obj"], "how": info["how"], "result": a})
         elif kind == "de_set" and info["text"] in ('{}', '{"a":{}}', '{"a":{},"b":{}}', ' { "a" : { } , "b":{} } ', '{"\\u00e9":{}}', '{"one":{},"two":{},"three":{}}'):
             want = set(json.loads(info["text"]).keys())
-            if not a.startswith("ok") or set(json.loads(unhx(a.split(" ")[1]).decode("utf-8")).keys()) != want:
+            back = None
+            if a.startswith("ok"):
+                try:
+                    back = json.loads(unhx(a.split(" ")[1]).decode("utf-8"))
+                except Exception:
+                    back = None
+            if not isinstance(back, dict) or set(back.keys()) != want:
                 ck.failures.append({"what": "a string set text is not read back", "text": info["text"], "how": info["how"], "result": a})
 
 
